@@ -27,7 +27,7 @@ from harness import common, dslgen as g, tlc
 
 FINDING = 'parser-descends-below-advertised-source'
 TOP = 4  # abstract priority standing for an explicitly passed instance (infinite priority)
-PRIORITY = {1: -5.0, 2: 0.5, 3: 1000.0}  # abstract -> configured priority (strictly monotone; 0 is the default)
+PRIORITY = {1: -5.0, 2: 0.0, 3: 1000.0}  # abstract -> configured priority (strictly monotone; 0 = the default priority, a falsy value)
 SLOTS = (1, 2, 3)
 ALIAS = 'c09pool'
 
@@ -290,6 +290,16 @@ class Real:
         self.native = [self._native(g.get(ent['ast'], path), f'n{i + 1}') for i, path in enumerate(ent['subs'])]
         self.xnative = [self._native(x, f'x{i + 1}') for i, x in enumerate(ent['extras'])]
 
+    def decoy(self):
+        if not hasattr(self, '_decoy'):
+            dsl = self.dsl
+
+            class Zzdecoy(dsl.Schema):
+                zz = dsl.Field(dsl.Integer())
+
+            self._decoy = Zzdecoy.select(Zzdecoy.zz)
+        return self._decoy
+
     def _native(self, node, name):
         if node['t'] in ('query', 'set'):
             return self.sql.select(self.sql.column('c')).select_from(self.sql.table(name))
@@ -308,6 +318,14 @@ class Real:
             args.append(self.feed(slot=j) if feed['p'] == TOP else self.setup.Feed(f's{j}p{feed["p"]}'))
         why = None
         importer = self.io.Importer(*args)
+        self.calls = getattr(self, 'calls', 0) + 1
+        if self.calls % 2:
+            # the same importer serves many statements: first ask it for a statement nobody provides (a table outside
+            # every catalog); the answer for the real statement must not depend on that earlier miss
+            try:
+                importer.match(self.decoy())
+            except self.forml.MissingError:
+                pass
         try:
             got = importer.match(self.stmt)
             sel = got.slot if isinstance(got, self.feed) and 1 <= got.slot <= len(pool) else -1
@@ -673,7 +691,7 @@ def main(chk):
                'for (sub-)queries and sets, i.e. of the kind the alchemy parser needs at that position')
     chk.assume('equal priorities: the requirement allows any of the tied covering feeds (the implementation keeps the '
                'order in which they were passed - measured as drift only)')
-    chk.assume('abstract priorities 1..3 are the configured priorities -5, 0.5, 1000 of lazy descriptors in '
+    chk.assume('abstract priorities 1..3 are the configured priorities -5, 0, 1000 of lazy descriptors in '
                '$FORML_HOME/config.toml; 4 is an explicitly passed instance (documented infinite priority)')
     chk.assume('statements with predicates over two origins combined by and/or, where/having over two origins or bare '
                'boolean columns as predicates are not generated: the parser crashes on them whatever is advertised '
